@@ -148,6 +148,7 @@ class Ref(object):
             for g in self._rule_genes(r["rule"]):
                 if not any(g in self._rule_genes(x["rule"]) for x in self.rxn.values()):
                     self.genes.discard(g)
+                    self._ungroup("Gene", g)        # "no dangling entries": an orphaned gene leaves its groups, like a metabolite
 
     def remove_metabolite(self, mid, destructive=False):
         if mid not in self.mets:
